@@ -1,0 +1,11 @@
+//go:build verif
+
+// Machine-checked contracts for package shared (comment-only; see /verif/DESIGN.md).
+
+package shared
+
+//@ func Fail
+//@   property C06
+//@   noreturn when err != nil
+//@   ensures @returns_only_without_error err == nil && ret0 == nil
+//@   modifies nothing
